@@ -14,6 +14,9 @@ HARNESS_DIR = os.path.join(C.VERIF, "engine_k", "harness")
 HOSTS = {
     "h_lib.rs": [("lib.rs", "vk_lib", "vk_lib")],
     "h_mem.rs": [("memory.rs", "vk_mem", "memory::vk_mem")],
+    "h_bytes.rs": [("bytes.rs", "vk_bytes", "bytes::vk_bytes")],
+    "h_unsync.rs": [("unsync.rs", "vk_unsync", "unsync::vk_unsync")],
+    "h_sync.rs": [("sync.rs", "vk_sync", "sync::vk_sync")],
     "h_arena.rs": [("sync.rs", "vk_arena", "sync::vk_arena"), ("unsync.rs", "vk_arena", "unsync::vk_arena")],
 }
 
@@ -21,6 +24,7 @@ FEATURES = ["--no-default-features", "--features", "alloc"]
 
 ANNOT = re.compile(r"^\s*//\s*@h\s+(.*)$")
 FN = re.compile(r"^\s*(?:pub(?:\([a-z]+\))?\s+)?fn\s+([A-Za-z0-9_]+)\s*\(")
+MACRO = re.compile(r"^\s*[a-z0-9_]+!\(\s*([A-Za-z0-9_]+)\s*,")
 UNWIND = re.compile(r"#\[kani::unwind\((\d+)\)\]")
 
 
@@ -71,6 +75,11 @@ def discover():
             if mu:
                 unwind = int(mu.group(1))
             mf = FN.match(ln)
+            mm = MACRO.match(ln)
+            if mm and pending is not None:
+                mf, proof = mm, True
+                if unwind is None and "unwind" in pending:
+                    unwind = int(pending["unwind"])
             if mf and proof:
                 attrs = pending or {}
                 for (_, _, modpath) in hosts:
@@ -198,41 +207,55 @@ def classify(h, r, pid):
 
 
 def playback(h, repo_copy, logdir):
-    """Ask Kani for a concrete test of the failing harness, run it natively (dev + release).
-    Returns dict(test_src, dev_fails, release_fails, dev_out)."""
+    """Ask Kani for concrete tests of the failing harness (print mode: also works for
+    macro-generated harnesses), append them to the overlay file, run them natively in the dev
+    profile (what Kani models) and in release (what users run).
+    Returns dict(test_src, dev_fails, release_fails, ...)."""
     crate = os.path.join(repo_copy, C.CRATE)
     cmd = ["cargo", "kani"] + FEATURES + ["--harness", h.name, "--exact", "-Z", "concrete-playback",
-                                          "--concrete-playback=inplace"]
+                                          "--concrete-playback=print"]
     p = subprocess.run(["timeout", "-k", "10", str(h.timeout)] + cmd, cwd=crate, env=C.base_env(),
                        stdout=subprocess.PIPE, stderr=subprocess.STDOUT, text=True)
-    src_file = os.path.join(crate, "src", "vk", h.file)
-    src = open(src_file).read()
-    tests = re.findall(r"(#\[test\]\s*fn (kani_concrete_playback_[A-Za-z0-9_]+)\(\).*?\n}\n)", src, re.S)
-    out = {"test_src": None, "dev_fails": None, "release_fails": None, "out": p.stdout[-800:]}
-    mine = [t for t in tests if h.fn in t[1]]
-    if not mine:
+    out = {"test_src": None, "dev_fails": None, "release_fails": None}
+    blocks = re.findall(r"Concrete playback unit test for `[^`]+`:\n```\n(.*?)\n```", p.stdout, re.S)
+    tests = []
+    for b in blocks:
+        m = re.search(r"fn (kani_concrete_playback_[A-Za-z0-9_]+)\(", b)
+        if m and h.fn in m.group(1):
+            tests.append((m.group(1), b))
+    if not tests:
+        out["out"] = p.stdout[-600:]
         return out
-    out["test_src"] = mine[0][0]
-    tname = mine[0][1]
+    src_file = os.path.join(crate, "src", "vk", h.file)
+    with open(src_file, "a") as f:
+        for _, b in tests:
+            f.write("\n" + b + "\n")
+    failing = {}
     for prof, key in ((None, "dev_fails"), ("--release", "release_fails")):
         cmd = ["cargo", "kani", "playback", "-Z", "concrete-playback"] + FEATURES
         if prof:
             cmd.append(prof)
-        cmd += ["--", tname]
-        q = subprocess.run(["timeout", "-k", "10", "900"] + cmd, cwd=crate, env=C.base_env(),
+        cmd += ["--", "kani_concrete_playback_" + h.fn + "_"]
+        q = subprocess.run(["timeout", "-k", "10", "1200"] + cmd, cwd=crate, env=C.base_env(),
                            stdout=subprocess.PIPE, stderr=subprocess.STDOUT, text=True)
         with open(os.path.join(logdir, "playback_%s_%s.log" % (h.fn, key)), "w") as f:
             f.write(q.stdout)
         if "test result:" not in q.stdout:
             out[key] = None
-        else:
-            out[key] = ("test result: FAILED" in q.stdout) or ("panicked" in q.stdout and "1 failed" in q.stdout)
-        out[key + "_msg"] = "\n".join(l for l in q.stdout.split("\n") if "panicked" in l or "assert" in l.lower())[:600]
+            out[key + "_msg"] = q.stdout[-400:]
+            continue
+        bad = re.findall(r"test \S*?(kani_concrete_playback_[A-Za-z0-9_]+) \.\.\. FAILED", q.stdout)
+        out[key] = bool(bad)
+        for t in bad:
+            failing[t] = True
+        out[key + "_msg"] = "\n".join(l for l in q.stdout.split("\n") if "panicked at" in l or l.startswith("C") or "overflow" in l)[:800]
+    keep = [b for (n, b) in tests if n in failing] or [b for (_, b) in tests]
+    out["test_src"] = "\n\n".join(keep)
     return out
 
 
 def replay_from_file(path):
-    """Re-run a saved replay (concrete playback test) against the current tree. exit 1 iff it still fails."""
+    """Re-run a saved replay (concrete playback tests) against the current tree. True iff one still fails."""
     rec = json.load(open(path))
     scratch = C.make_scratch("replay")
     rc = C.copy_repo(scratch)
@@ -241,12 +264,12 @@ def replay_from_file(path):
     srcf = os.path.join(crate, "src", "vk", rec["file"])
     with open(srcf, "a") as f:
         f.write("\n" + rec["test_src"] + "\n")
-    tname = re.search(r"fn (kani_concrete_playback_[A-Za-z0-9_]+)", rec["test_src"]).group(1)
+    fn = rec["harness"].split("::")[-1]
     fails = False
     for prof in ([], ["--release"]):
-        cmd = ["cargo", "kani", "playback", "-Z", "concrete-playback"] + FEATURES + prof + ["--", tname]
+        cmd = ["cargo", "kani", "playback", "-Z", "concrete-playback"] + FEATURES + prof + ["--", "kani_concrete_playback_" + fn + "_"]
         q = subprocess.run(cmd, cwd=crate, env=C.base_env(), stdout=subprocess.PIPE, stderr=subprocess.STDOUT, text=True)
-        print(q.stdout[-1500:])
-        if "test result: FAILED" in q.stdout:
+        print("\n".join(l for l in q.stdout.split("\n") if l.startswith("test ") or "panicked" in l or "C" == l[:1])[-1500:])
+        if re.search(r"\.\.\. FAILED", q.stdout):
             fails = True
     return fails
